@@ -17,7 +17,7 @@ const char *verif_rule =
     "(coap_new_pdu + coap_send of a follow-up request from the response handler, coap_resource_notify_observers from a request handler, session getters from the others). "
     "Oracle: coap_threadsafe_is_supported() == 1 implies that locking code is compiled in (the library's lock state exists and is held by the calling thread inside callbacks); "
     "ThreadSanitizer reports no data race and no lock-order inversion; every thread finishes (per-case watchdog); afterwards the global lock is free (owner 0, in_callback 0, lock_count 0). "
-    "Non-trivial = >= 2 threads with overlapping operations and at least one callback that re-entered the API; distinct = by program";
+    "Non-trivial = >= 2 threads with overlapping operations and at least one callback that re-entered the API; distinct = by program coap_delete_resource() is called with the context and, every second time, with the documented-as-ignored context argument NULL.";
 size_t verif_max_tape = 260;
 
 namespace {
